@@ -230,7 +230,7 @@ fn parser_one_action(validate: bool) {
 	}
 	kani::cover!(matches!(res, Ok(LogAction::EndRecord)));
 	kani::cover!(matches!(res, Ok(LogAction::InsertValue(_))));
-	if validate { kani::cover!(matches!(res, Err(Error::Corruption(_))) && tag == 4); }
+	kani::cover!(!validate || (matches!(res, Err(Error::Corruption(_))) && tag == 4));
 	std::mem::forget(res);
 	std::mem::forget(r);
 	std::mem::forget(lock);
